@@ -124,8 +124,66 @@ def check_field_lists(ctx):
     return res
 
 
+def par_mismatches(ctx, name, header, terms, fns, ways):
+    """coq_mismatches over `ways` parallel coqc processes (type-checking the literal
+    case terms dominates the cost; it parallelises perfectly)."""
+    import concurrent.futures as cf
+    n = len(terms)
+    if n == 0:
+        return [[] for _ in fns]
+    size = max(1, (n + ways - 1) // ways)
+    chunks = [(k, terms[k:k + size]) for k in range(0, n, size)]
+    bad = [[] for _ in fns]
+    with cf.ThreadPoolExecutor(max_workers=ways) as ex:
+        futs = [(k, ex.submit(coq_mismatches, ctx, "%s_p%d" % (name, k), header, ch, fns, 400, 900)) for k, ch in chunks]
+        for k, fu in futs:
+            res = fu.result()
+            for j in range(len(fns)):
+                bad[j] += [k + i for i in res[j]]
+    return bad
+
+
+def replay(ctx, path):
+    """Re-run one recorded failing input against the current tree."""
+    rec = json.load(open(path))
+    r = rec.get("replay", rec)
+    hx = ctx.go_build("c17")
+    tmp = os.path.join(ctx.build, "tmp", "c17_replay_input")
+    if r.get("mode") == "corrupt":
+        open(tmp, "w").write(r["hex"])
+        out = ctx.jsonl([hx, "-mode", "hex", "-file", tmp], timeout=120)
+        res = out[0]["result"] if out else "no answer"
+        ctx.log("replay: DecodeProgram -> %s" % res)
+        if res.split(" ")[0] in ("crash", "hang", "panic"):
+            ctx.finding(rec.get("key", "decode:replay"), "replayed corrupted file: " + res, r)
+    elif r.get("src") is not None:
+        open(tmp, "wb").write(r["src"].encode("utf8", "surrogateescape"))
+        out = ctx.jsonl([hx, "-mode", "src", "-file", tmp, "-filename", r.get("filename") or "prog.star", "-opts", r.get("opts") or ""], timeout=120)
+        for c in out:
+            if c.get("invalid"):
+                ctx.log("replay: the program does not compile: " + c["invalid"])
+            for d in c.get("diffs") or []:
+                ctx.finding(d["key"], d["what"], r)
+        ctx.log("replay: %d difference(s)" % sum(len(c.get("diffs") or []) for c in out))
+    elif r.get("dump") and r.get("bytes"):
+        p = program(r["dump"])
+        header = HEADER + """
+Definition spec_ok (c : program * bytes) : bool :=
+  match decode_program (snd c) with DProgram p => program_eqb p (fst c) | _ => false end.
+"""
+        bad = coq_mismatches(ctx, "c17_replay", header, ["(%s, %s)" % (p, hexlist(r["bytes"]))], "spec_ok")
+        ctx.log("replay: decoder oracle %s" % ("fails" if bad else "holds"))
+        if bad:
+            ctx.finding(rec.get("key", "wire:replay"), "decoding the recorded bytes with the decoder's schema does not give back the recorded fields", r)
+    else:
+        ctx.log("replay: nothing replayable in %s" % path)
+    return ctx.finish(LEVEL, {"evaluations": 1, "distinct_nontrivial": 1, "rule": "replay of " + path})
+
+
 def run(ctx):
     import concurrent.futures as cf
+    if getattr(ctx, "replay_path", None):
+        return replay(ctx, ctx.replay_path)
     ctx.proofs()
     ctx.log("proofs audited: %d/%d" % (ctx.discharged, ctx.obligations))
     fields = check_field_lists(ctx)
@@ -158,16 +216,16 @@ def run(ctx):
         nsat += 1 if c.get("saturated") else 0
         nfuncs += c.get("nfuncs", 0)
         for d in c.get("diffs") or []:
-            ctx.finding(d["key"], d["what"], {"mode": "rt", "src": c.get("src"), "opts": c.get("opts"), "id": c["id"], "seed": ctx.seed,
-                                              "how": "c17 -mode src -file <src> -opts '<opts>'"})
+            ctx.finding(d["key"], d["what"], {"mode": "rt", "src": c.get("src"), "opts": c.get("opts"), "filename": c.get("filename"), "id": c["id"], "seed": ctx.seed,
+                                              "how": "bin/check C17 --replay <this file>  (c17 -mode src -file <src> -filename <filename> -opts '<opts>')"})
     ctx.log("(a) %d generated programs (%d rejected by the compiler), %d fail at run time, %d with saturated position deltas, %d function values compared"
             % (len(rt), invalid, nfail, nsat, nfuncs))
     if invalid > len(rt) // 20:
         ctx.broken("generator:C17", "%d of %d generated programs do not compile" % (invalid, len(rt)))
 
     # ---------------------------------------------------------------- (b) correspondence
-    n_corr = 120 if quick else 4000
-    corr = ctx.jsonl([hx, "-mode", "corr", "-seed", seed, "-n", str(n_corr)], timeout=800)
+    n_corr = 45 if quick else 4000
+    corr = ctx.jsonl([hx, "-mode", "corr", "-seed", seed, "-n", str(n_corr)] + (["-small"] if quick else []), timeout=800)
     terms, refs, seen = [], [], set()
     cdist = {}
     unrenderable = 0
@@ -204,14 +262,27 @@ Definition spec_ok (c : case) : bool :=
 Definition wt_ok (c : case) : bool := wt_program (fst c).
 """
     ctx.log("(b) evaluating %d distinct (dump, bytes) cases in Coq" % len(terms))
-    bad_model, bad_spec, bad_wt = coq_mismatches(ctx, "c17_cases", header, terms, ["model_ok", "spec_ok", "wt_ok"], shard=400, timeout=900)
+    bad_model, bad_spec, bad_wt = par_mismatches(ctx, "c17_cases", header, terms, ["model_ok", "spec_ok", "wt_ok"], 3 if quick else 8)
+    drift = []
     for i in bad_spec:
         c = refs[i]
-        ctx.finding("wire:decoder-schema:" + "+".join(sorted(set(k.split(":")[-1] for k in c.get("class") or ["?"])))[:80],
+        cls = c.get("class") or ["?"]
+        where = cls[0] if c["origin"] == "synthetic" else "compiled"
+        if not c.get("diffs"):
+            # the real decoder does give back every field of this program (the Go-side
+            # comparison is clean) but the bytes are not in the modelled format: the wire
+            # format moved on both sides; the property holds, the model is out of date
+            drift.append(i)
+            continue
+        ctx.finding("wire:decoder-schema:" + where,
                     "decoding the bytes written by Program.Encode with the decoder's schema does not give back the program's fields",
                     {"mode": "corr", "origin": c["origin"], "src": c.get("src"), "dump": c["dump"], "bytes": c["bytes"], "class": c.get("class")})
+    if drift:
+        c = refs[drift[0]]
+        ctx.broken("correspondence:C17.Model", "the wire format differs from the modelled schema on %d case(s) although the real round trip is clean there (encoder and decoder changed together?), e.g. class %s bytes %s"
+                   % (len(drift), c.get("class"), c["bytes"][:200]))
     only_model = [i for i in bad_model if i not in set(bad_spec)]
-    if only_model:
+    if only_model and not drift:
         c = refs[only_model[0]]
         ctx.broken("correspondence:C17.Model", "Program.Encode and the encoder model differ on %d case(s) where the decoder oracle is met, e.g. class %s bytes %s"
                    % (len(only_model), c.get("class"), c["bytes"][:200]))
@@ -222,13 +293,28 @@ Definition wt_ok (c : case) : bool := wt_program (fst c).
     # ---------------------------------------------------------------- (c) corrupted input
     cor = fut_cor.result()
     csum = {}
+    dcases, drefs, dseen = [], [], set()
     for c in cor:
         if c.get("kind") == "corrupt-fail":
             ctx.finding(c["key"], c["what"], {"mode": "corrupt", "class": c["class"], "hex": c["hex"],
                                               "how": "starlark.CompiledProgram(bytes.NewReader(<hex decoded>))"})
         elif c.get("kind") == "corrupt":
             csum = c
+        elif c.get("kind") == "corrupt-case" and c["hex"] not in dseen:
+            dseen.add(c["hex"])
+            dcases.append("(%s, %s)" % (hexlist(c["hex"]), cb(c["ok"])))
+            drefs.append(c)
     ctx.log("(c) %d corrupted files: %s" % (csum.get("cases", 0), csum.get("outcomes")))
+    # the decoder model reproduces accept / reject on the small corrupted files
+    dheader = HEADER + """
+Definition dec_ok (c : bytes * bool) : bool :=
+  match decode_program (fst c) with DError _ => negb (snd c) | _ => snd c end.
+"""
+    bad_dec = coq_mismatches(ctx, "c17_corrupt", dheader, dcases, "dec_ok", shard=2000, timeout=600) if dcases else []
+    if bad_dec:
+        c = drefs[bad_dec[0]]
+        ctx.broken("correspondence:C17.Model.decoder", "DecodeProgram and the decoder model disagree on accept/reject for %d of %d small corrupted files, e.g. class %s file %s: DecodeProgram %s"
+                   % (len(bad_dec), len(dcases), c["class"], c["hex"], "accepted it" if c["ok"] else "returned an error"))
 
     samples = [{"origin": c["origin"], "class": c.get("class"), "bytes": c["bytes"][:120]} for c in refs[:2] + refs[len(refs) // 2: len(refs) // 2 + 2]]
     cov = {
@@ -240,7 +326,7 @@ Definition wt_ok (c : case) : bool := wt_program (fst c).
         "samples": samples,
         "distribution": {"rt_features": dist, "corr_classes": cdist, "corrupt": csum.get("by_class"), "corrupt_outcomes": csum.get("outcomes")},
         "rt_programs": len(rt), "rt_invalid": invalid, "rt_runtime_failures": nfail, "rt_saturated": nsat, "rt_function_values": nfuncs,
-        "coq_cases": len(terms), "model_mismatches": len(bad_model), "spec_mismatches": len(bad_spec), "unrenderable": unrenderable,
+        "coq_cases": len(terms), "coq_corrupt_cases": len(dcases), "decoder_model_mismatches": len(bad_dec), "model_mismatches": len(bad_model), "spec_mismatches": len(bad_spec), "unrenderable": unrenderable,
         "go_struct_fields": fields,
     }
     return ctx.finish(LEVEL, cov, assumptions=[
